@@ -379,6 +379,47 @@ func runC35(tier, replay string) {
 		l := rng.Intn(50)
 		checkCombineZeros(r, vkit.NewRand(seed).Bytes(l), n, c35case{Kind: "combine-zeros", Len: l, DataSeed: seed, Len2: n})
 	}
+	// (e) len2 beyond what can be hashed: doubling ladder. z[k] = crc(0^(2^k)); z[k+1] is
+	// obtained by combining z[k] with itself (len2 = 2^k, a value already validated against
+	// streamed hashing up to 2^maxPow, and inductively above), and for every level the
+	// concatenation law crc(x || 0^(2^(k+1))) must come out the same whether the zero run is
+	// combined in one step (len2 = 2^(k+1)) or in two steps of 2^k.
+	{
+		type variant struct {
+			name string
+			f    func(a, b []byte, n int64) []byte
+			one  func([]byte) []byte
+		}
+		vs := []variant{
+			{"crc32", checksumutils.CombineCrc32, func(x []byte) []byte { return be32(crc32.ChecksumIEEE(x)) }},
+			{"crc32c", checksumutils.CombineCrc32c, func(x []byte) []byte { return be32(crc32.Checksum(x, refCastagnoli)) }},
+			{"crc64nvme", checksumutils.CombineCrc64Nvme, func(x []byte) []byte { return be64(crc64.Checksum(x, refNvme)) }},
+		}
+		x := rng.Bytes(37)
+		for _, v := range vs {
+			z := v.one(make([]byte, 1<<16))
+			for k := 16; k < 46; k++ {
+				zNext := v.f(z, z, int64(1)<<k)
+				oneStep := v.f(v.one(x), zNext, int64(1)<<(k+1))
+				twoSteps := v.f(v.f(v.one(x), z, int64(1)<<k), z, int64(1)<<k)
+				r.Eval(fmt.Sprintf("combine-ladder|%s|2^%d", v.name, k+1))
+				if !bytes.Equal(oneStep, twoSteps) {
+					r.Violation("combine-mismatch:large-len2", fmt.Sprintf("Combine %s: crc(x || 0^(2^%d)) differs between one step (len2=2^%d) and two steps (len2=2^%d): %x vs %x", v.name, k+1, k+1, k, oneStep, twoSteps), c35case{Kind: "combine-ladder", Len2: int64(1) << (k + 1)})
+					break
+				}
+				// also an odd length above 2^32: 2^(k+1) + 300123 in one step vs split
+				tail := make([]byte, 300123)
+				odd := v.f(v.one(x), v.f(zNext, v.one(tail), 300123), (int64(1)<<(k+1))+300123)
+				split := v.f(v.f(v.one(x), zNext, int64(1)<<(k+1)), v.one(tail), 300123)
+				if !bytes.Equal(odd, split) {
+					r.Violation("combine-mismatch:large-len2", fmt.Sprintf("Combine %s: len2=2^%d+300123 in one step differs from the split computation: %x vs %x", v.name, k+1, odd, split), c35case{Kind: "combine-ladder", Len2: (int64(1) << (k + 1)) + 300123})
+					break
+				}
+				z = zNext
+			}
+		}
+		r.Count("combine_ladder_levels_up_to_2^46", 1)
+	}
 	r.Sample(c35case{Kind: "stream", Len: block + 1, Schedule: []int{0, 1, 0, 0, 65536, 3}, BufSize: block + 3, EOFData: true})
 	r.Sample(c35case{Kind: "combine", Len: 300, Split: 17})
 	r.Sample(c35case{Kind: "combine-zeros", Len: 13, Len2: 1<<22 + 1})
